@@ -676,6 +676,9 @@ func (s *Speller) Expr(e Expr) {
 				s.tok(k.S)
 			case *ENum:
 				s.tok(k.Text)
+				// an index after a dot is complete as it stands: a dot that follows is the next access, not a
+				// decimal point, and may follow without a blank (rows.0.name)
+				s.prev = "]"
 			default:
 				panic("gen: dot key must be a name or number")
 			}
